@@ -5,6 +5,7 @@ import toml
 from codemodder.project_analysis.file_parsers.package_store import (
     FileType,
     PackageStore,
+    parse_requirement,
 )
 
 from .base_parser import BaseParser
@@ -34,7 +35,7 @@ class PyprojectTomlParser(BaseParser):
 
         if poetry_data:
             poetry_dependencies = [
-                f"{name}{version}"
+                _poetry_requirement(name, version)
                 for name, version in poetry_data.get("dependencies", {}).items()
                 if name != "python"
             ]
@@ -48,3 +49,14 @@ class PyprojectTomlParser(BaseParser):
             dependencies=set(project_dependencies + poetry_dependencies),
             py_versions=[version] if version else [],
         )
+
+
+def _poetry_requirement(name: str, constraint) -> str:
+    """
+    Poetry constraints such as "*", "~1.2", a bare version or a table are not
+    PEP 508 specifiers: keep at least the package name so that the package
+    still counts as declared.
+    """
+    requirement = f"{name}{constraint}"
+    parsed = parse_requirement(requirement)
+    return requirement if parsed is not None and parsed.name == name else name
